@@ -16,6 +16,18 @@ type node struct {
 	obj  map[string]*node
 	arr  []*node
 	val  interface{}
+	// explicitNull marks a null that entered as an operation's own "value":
+	// json-patch holds it as a non-nil node without raw text, whereas a null
+	// parsed from the document (or nested in a value) is a nil node pointer.
+	explicitNull bool
+}
+
+func opValueNode(v interface{}) *node {
+	n := toNode(v)
+	if v == nil {
+		n.explicitNull = true
+	}
+	return n
 }
 
 func toNode(v interface{}) *node {
@@ -89,7 +101,7 @@ func cloneNode(n *node) *node {
 		}
 		return c
 	}
-	return &node{kind: 'v', val: n.val}
+	return &node{kind: 'v', val: n.val, explicitNull: n.explicitNull}
 }
 
 // ParsePointer parses an RFC 6901 JSON pointer.
@@ -111,6 +123,21 @@ func ParsePointer(p string) ([]string, error) {
 		t = strings.ReplaceAll(t, "~1", "/")
 		t = strings.ReplaceAll(t, "~0", "~")
 		parts[i] = t
+	}
+	return parts, nil
+}
+
+// parsePointerLenient follows json-patch v4.1.0: everything before the first
+// '/' is ignored, a pointer without '/' addresses nothing, bad escapes are kept.
+func parsePointerLenient(p string) ([]string, error) {
+	i := strings.Index(p, "/")
+	if i < 0 {
+		return nil, fmt.Errorf("pointer %q addresses nothing", p)
+	}
+	parts := strings.Split(p[i+1:], "/")
+	for j, t := range parts {
+		t = strings.ReplaceAll(t, "~1", "/")
+		parts[j] = strings.ReplaceAll(t, "~0", "~")
 	}
 	return parts, nil
 }
@@ -171,6 +198,25 @@ func getNode(root *node, toks []string) (*node, error) {
 }
 
 type rfcDoc struct{ root *node }
+
+// getLenient emulates json-patch's member lookup: a missing member of an
+// existing object reads as null instead of failing.
+func getLenient(root *node, toks []string) (*node, error) {
+	if len(toks) == 0 {
+		return nil, errors.New("missing path")
+	}
+	parent, err := getNode(root, toks[:len(toks)-1])
+	if err != nil {
+		return nil, err
+	}
+	if parent.kind == 'o' {
+		if n, ok := parent.obj[toks[len(toks)-1]]; ok {
+			return n, nil
+		}
+		return &node{kind: 'v', val: nil}, nil
+	}
+	return getNode(root, toks)
+}
 
 func (d *rfcDoc) add(toks []string, v *node) error {
 	if len(toks) == 0 {
@@ -240,9 +286,154 @@ func isProperPrefix(a, b []string) bool {
 	return true
 }
 
+// Quirks selects emulation of three evanphx/json-patch v4.1.0 deviations from
+// RFC 6902 that are reachable with RFC-valid patches. They are used only to
+// fingerprint known third-party behaviour, never as the expected result.
+type Quirks struct {
+	AliasCopy   bool // copy inserts the very same node (no deep copy)
+	MoveCopySet bool // move/copy "set" the destination: an array index is overwritten (or the array extended with nulls) instead of inserted
+	NullTest    bool // test compares containers with a nil-unsafe routine: a null inside an array (or on one side of an object member) makes it fail
+}
+
+// Name lists the enabled quirks.
+func (q Quirks) Name() string {
+	var n []string
+	if q.AliasCopy {
+		n = append(n, "copy-alias")
+	}
+	if q.MoveCopySet {
+		n = append(n, "move-copy-set")
+	}
+	if q.NullTest {
+		n = append(n, "null-in-test")
+	}
+	return strings.Join(n, "+")
+}
+
+// AllQuirkSubsets lists the non-empty subsets ordered by size.
+func AllQuirkSubsets() []Quirks {
+	return []Quirks{{AliasCopy: true}, {MoveCopySet: true}, {NullTest: true},
+		{AliasCopy: true, MoveCopySet: true}, {AliasCopy: true, NullTest: true}, {MoveCopySet: true, NullTest: true},
+		{AliasCopy: true, MoveCopySet: true, NullTest: true}}
+}
+
+// set emulates json-patch's container.set for move/copy destinations.
+func (d *rfcDoc) set(toks []string, v *node) error {
+	if len(toks) == 0 {
+		return errors.New("missing destination")
+	}
+	parent, err := getNode(d.root, toks[:len(toks)-1])
+	if err != nil {
+		return err
+	}
+	last := toks[len(toks)-1]
+	switch parent.kind {
+	case 'o':
+		parent.obj[last] = v
+	case 'a':
+		if last == "-" {
+			parent.arr = append(parent.arr, v)
+			return nil
+		}
+		i, err := arrayIndex(last, 1<<20, true)
+		if err != nil {
+			return err
+		}
+		for len(parent.arr) <= i {
+			parent.arr = append(parent.arr, &node{kind: 'v', val: nil})
+		}
+		parent.arr[i] = v
+	default:
+		return errors.New("cannot set into scalar")
+	}
+	return nil
+}
+
+var errEmuPanic = errors.New("emulated nil dereference in json-patch equal()")
+
+func isNullNode(n *node) bool { return n == nil || (n.kind == 'v' && n.val == nil) }
+
+// emuEqual follows lazyNode.equal of json-patch v4.1.0; n is the document
+// node, o the operation's value. A JSON null is a nil *lazyNode there.
+func emuEqual(n *node, o interface{}) (bool, error) {
+	if isNullNode(n) {
+		if n != nil && n.explicitNull && o != nil {
+			return false, nil
+		}
+		return false, errEmuPanic
+	}
+	switch n.kind {
+	case 'v':
+		if o == nil {
+			return false, errEmuPanic
+		}
+		switch o.(type) {
+		case map[string]interface{}, []interface{}:
+			return false, nil
+		}
+		return JSONEqual(n.val, o), nil
+	case 'o':
+		if o == nil {
+			return false, errEmuPanic
+		}
+		om, ok := o.(map[string]interface{})
+		if !ok {
+			return false, nil
+		}
+		keys := make([]string, 0, len(n.obj))
+		for k := range n.obj {
+			keys = append(keys, k)
+		}
+		SortUTF16(keys)
+		// Go map iteration order is random in the library; a panic or a
+		// "false" may win. Report panic if any member would panic and no
+		// earlier deterministic answer exists: treat both as failure.
+		res := true
+		for _, k := range keys {
+			v := n.obj[k]
+			ov, ok := om[k]
+			if !ok {
+				return false, nil
+			}
+			if isNullNode(v) && !v.explicitNull && ov == nil {
+				continue
+			}
+			eq, err := emuEqual(v, ov)
+			if err != nil {
+				return false, err
+			}
+			if !eq {
+				res = false
+			}
+		}
+		return res, nil
+	case 'a':
+		if o == nil {
+			return false, errEmuPanic
+		}
+		oa, ok := o.([]interface{})
+		if !ok || len(oa) != len(n.arr) {
+			return false, nil
+		}
+		for i, e := range n.arr {
+			eq, err := emuEqual(e, oa[i])
+			if err != nil {
+				return false, err
+			}
+			if !eq {
+				return false, nil
+			}
+		}
+		return true, nil
+	}
+	return false, nil
+}
+
 // ApplyRFC6902 applies a generic patch list ([]interface{} of op objects) to doc.
-// The input is not modified. aliasCopy selects json-patch v4.1.0's copy semantics.
-func ApplyRFC6902(doc interface{}, ops []interface{}, aliasCopy bool) (interface{}, error) {
+// The input is not modified. The zero Quirks value is plain RFC 6902.
+func ApplyRFC6902(doc interface{}, ops []interface{}, q Quirks) (interface{}, error) {
+	aliasCopy := q.AliasCopy
+	lenient := q != (Quirks{})
 	d := &rfcDoc{root: toNode(doc)}
 	for n, raw := range ops {
 		op, ok := raw.(map[string]interface{})
@@ -254,7 +445,11 @@ func ApplyRFC6902(doc interface{}, ops []interface{}, aliasCopy bool) (interface
 		if !ok {
 			return nil, fmt.Errorf("op %d: path missing", n)
 		}
-		path, err := ParsePointer(pathS)
+		parse := ParsePointer
+		if q != (Quirks{}) {
+			parse = parsePointerLenient
+		}
+		path, err := parse(pathS)
 		if err != nil {
 			return nil, err
 		}
@@ -265,7 +460,7 @@ func ApplyRFC6902(doc interface{}, ops []interface{}, aliasCopy bool) (interface
 			if !ok {
 				return nil, fmt.Errorf("op %d: from missing", n)
 			}
-			from, err = ParsePointer(fs)
+			from, err = parse(fs)
 			if err != nil {
 				return nil, err
 			}
@@ -275,7 +470,7 @@ func ApplyRFC6902(doc interface{}, ops []interface{}, aliasCopy bool) (interface
 			if !hasVal {
 				return nil, errors.New("add without value")
 			}
-			if err := d.add(path, toNode(val)); err != nil {
+			if err := d.add(path, opValueNode(val)); err != nil {
 				return nil, err
 			}
 		case "remove":
@@ -290,13 +485,22 @@ func ApplyRFC6902(doc interface{}, ops []interface{}, aliasCopy bool) (interface
 				d.root = toNode(val)
 				break
 			}
+			if lenient {
+				if _, err := getLenient(d.root, path); err != nil {
+					return nil, err
+				}
+				if err := d.set(path, opValueNode(val)); err != nil {
+					return nil, err
+				}
+				break
+			}
 			if _, err := getNode(d.root, path); err != nil {
 				return nil, err
 			}
 			if _, err := d.remove(path); err != nil {
 				return nil, err
 			}
-			if err := d.add(path, toNode(val)); err != nil {
+			if err := d.add(path, opValueNode(val)); err != nil {
 				return nil, err
 			}
 		case "move":
@@ -307,18 +511,31 @@ func ApplyRFC6902(doc interface{}, ops []interface{}, aliasCopy bool) (interface
 			if err != nil {
 				return nil, err
 			}
-			if err := d.add(path, v); err != nil {
+			if q.MoveCopySet {
+				err = d.set(path, v)
+			} else {
+				err = d.add(path, v)
+			}
+			if err != nil {
 				return nil, err
 			}
 		case "copy":
 			v, err := getNode(d.root, from)
+			if lenient {
+				v, err = getLenient(d.root, from)
+			}
 			if err != nil {
 				return nil, err
 			}
 			if !aliasCopy {
 				v = cloneNode(v)
 			}
-			if err := d.add(path, v); err != nil {
+			if q.MoveCopySet {
+				err = d.set(path, v)
+			} else {
+				err = d.add(path, v)
+			}
+			if err != nil {
 				return nil, err
 			}
 		case "test":
@@ -326,8 +543,28 @@ func ApplyRFC6902(doc interface{}, ops []interface{}, aliasCopy bool) (interface
 				return nil, errors.New("test without value")
 			}
 			v, err := getNode(d.root, path)
+			if lenient {
+				v, err = getLenient(d.root, path)
+			}
 			if err != nil {
 				return nil, err
+			}
+			if q.NullTest {
+				if isNullNode(v) {
+					// document null: equal iff the value is null; explicit null node: compared as text with the value
+					if val == nil {
+						break
+					}
+					return nil, errors.New("test failed")
+				}
+				eq, err := emuEqual(v, val)
+				if err != nil {
+					return nil, err
+				}
+				if !eq {
+					return nil, errors.New("test failed")
+				}
+				break
 			}
 			g, err := fromNode(v, map[*node]bool{})
 			if err != nil {
